@@ -55,6 +55,9 @@ type ModifyStream struct {
 	// aborting the stream (fault injection on the send path).
 	SendFailAt int
 	SendFail   error
+	// SendFailKeepsRecv: the send path fails from that message on, but the stream is not aborted: the client's
+	// Recv stays blocked until Abort is called (a failure that reaches the read side later than the write side).
+	SendFailKeepsRecv bool
 	// RecvFailAt >= 0 makes the client-side Recv number i fail likewise.
 	RecvFailAt int
 	RecvFail   error
@@ -135,6 +138,10 @@ type modifyClient struct {
 
 func (c *modifyClient) Send(m *spb.ModifyRequest) error {
 	st := c.st
+	if st.SendFailAt >= 0 && st.SendFailKeepsRecv && st.Sent >= st.SendFailAt && !st.aborted {
+		st.Sent++
+		return st.SendFail
+	}
 	if st.SendFailAt >= 0 && st.Sent == st.SendFailAt {
 		st.Abort(status.Code(st.SendFail))
 		st.Sent++
